@@ -34,14 +34,68 @@ func Aborting() bool {
 //go:norace
 func Controlled() bool { return inSched() != nil }
 
+// Quiet runs f with every REAL synchronisation event of the calling controlled thread hidden from the race
+// detector (memory accesses are still tracked). Only the happens-before edges that the shims announce
+// (compose-go's own mutexes, channels, WaitGroups, Once …) remain visible. Two threads that each run a whole
+// library call inside Quiet are therefore concurrent for the detector unless compose-go itself orders them:
+// locks inside uninstrumented third-party code (yaml, gojsonschema, reflect caches) no longer mask a race
+// between them. Reports whose racing accesses are not both in compose-go code must be discarded by the caller.
+//
 //go:norace
-func Acquire(p unsafe.Pointer) { RaceAcquire(p) }
+func Quiet(f func()) {
+	s := inSched()
+	if s == nil || s.cur == nil {
+		f()
+		return
+	}
+	t := s.cur
+	t.quiet++
+	raceDisable()
+	defer func() {
+		raceEnable()
+		t.quiet--
+	}()
+	f()
+}
 
 //go:norace
-func Release(p unsafe.Pointer) { RaceRelease(p) }
+func quiet() bool {
+	s := inSched()
+	return s != nil && s.cur != nil && s.cur.quiet > 0
+}
 
 //go:norace
-func ReleaseMerge(p unsafe.Pointer) { RaceReleaseMerge(p) }
+func Acquire(p unsafe.Pointer) {
+	if quiet() {
+		raceEnable()
+		RaceAcquire(p)
+		raceDisable()
+		return
+	}
+	RaceAcquire(p)
+}
+
+//go:norace
+func Release(p unsafe.Pointer) {
+	if quiet() {
+		raceEnable()
+		RaceRelease(p)
+		raceDisable()
+		return
+	}
+	RaceRelease(p)
+}
+
+//go:norace
+func ReleaseMerge(p unsafe.Pointer) {
+	if quiet() {
+		raceEnable()
+		RaceReleaseMerge(p)
+		raceDisable()
+		return
+	}
+	RaceReleaseMerge(p)
+}
 
 // Touch records an operation on an object in the happens-before state without a scheduling
 // point. Used for pure releases (unlock, WaitGroup.Done): a release is a left mover, so an
